@@ -173,11 +173,6 @@ func vfC17GcFrame(t *testing.T, s *vfutil.Session, c *vfGFCase, tag int, src str
 		}
 		st.Items = append(st.Items, checkpoint.VfItem{Db: d, Key: config.CheckpointKey, Fields: fs})
 	}
-	tg := vfdoubles.NewTarget()
-	st.Seed(tg)
-	seedLen := tg.LogLen()
-	tln := vfTargetListen(tg)
-	defer tln.Close()
 	src1 := vfSrcListen(c.cur, c.prev)
 	defer src1.ln.Close()
 	in := vfStandalone(src1.ln.Addr().String())
@@ -203,13 +198,27 @@ func vfC17GcFrame(t *testing.T, s *vfutil.Session, c *vfGFCase, tag int, src str
 	oldIn, oldOut, oldCh := sc.Input, sc.Output, sc.Channel
 	defer func() { sc.Input, sc.Output, sc.Channel = oldIn, oldOut, oldCh }()
 	stale := time.Duration(c.staleMin) * time.Minute
-	sc.Input = &config.InputConfig{Redis: in}
-	sc.Output = &config.OutputConfig{Redis: vfStandalone(tln.Addr().String())}
-	sc.Channel = &config.ChannelConfig{Type: "memory", StaleCheckpointDuration: stale}
-
-	before := time.Now().Add(-stale).UnixNano()
-	(&SyncerCmd{logger: log.WithLogger("[vf] ")}).gcStaleCheckpoint(context.Background())
-	tg.CloseAll()
+	var before int64
+	// one run of the real gcStaleCheckpoint on a fresh copy of the state; failAt: request index (over the
+	// target's log) -> error reply (the connection stays usable)
+	runGc := func(failAt map[int]string) (*vfdoubles.Target, int) {
+		tg := vfdoubles.NewTarget()
+		st.Seed(tg)
+		seedLen := tg.LogLen()
+		for k, v := range failAt {
+			tg.FailAt[k] = v
+		}
+		tln := vfTargetListen(tg)
+		defer tln.Close()
+		sc.Input = &config.InputConfig{Redis: in}
+		sc.Output = &config.OutputConfig{Redis: vfStandalone(tln.Addr().String())}
+		sc.Channel = &config.ChannelConfig{Type: "memory", StaleCheckpointDuration: stale}
+		before = time.Now().Add(-stale).UnixNano()
+		(&SyncerCmd{logger: log.WithLogger("[vf] ")}).gcStaleCheckpoint(context.Background())
+		tg.CloseAll()
+		return tg, seedLen
+	}
+	tg, seedLen := runGc(nil)
 	logAll := tg.LogCopy()
 	if os.Getenv("VERIF_DEBUG") != "" {
 		for _, e := range logAll[seedLen:] {
@@ -281,6 +290,45 @@ func vfC17GcFrame(t *testing.T, s *vfutil.Session, c *vfGFCase, tag int, src str
 		}
 		s.Count("gcframe_next_start_checked")
 	}
+	// error path: each request of the gc pass (scan requests included: hgetall of the checkpoint hash, info
+	// keyspace, select, exists, hgetall of the entries, hdel) gets an error reply in turn - a transient
+	// -BUSY / -LOADING style answer, the connection stays usable - then the syncer restarts: the next start
+	// on what that gc run left (the failed request not applied) must read a position not smaller, same DB
+	if !c.down {
+		var pts []int
+		for i := seedLen; i < len(logAll); i++ {
+			pts = append(pts, i)
+		}
+		if max := vfutil.Scale(8, 1000); len(pts) > max && src != "corpus" {
+			var sel []int
+			for j := 0; j < max; j++ {
+				sel = append(sel, pts[(j*len(pts)+int(c.top)%len(pts))/max%len(pts)])
+			}
+			pts = sel
+		}
+		for _, k := range pts {
+			fa := map[int]string{k: "BUSY vf injected error reply"}
+			tf, _ := runGc(fa)
+			logF := tf.LogCopy()
+			if k >= len(logF) {
+				continue
+			}
+			got := checkpoint.VfNextStart(vfdoubles.ReplayFaults(logF, 0, false, fa), config.CheckpointKey, ids)
+			s.Count("gcframe_fault_points")
+			if !vfPosGe(got, first) {
+				var wr []string
+				for i := seedLen; i < len(logF); i++ {
+					if l, ok := checkpoint.VfRenderWrite(logF[i]); ok && i != k {
+						wr = append(wr, l)
+					}
+				}
+				s.Violate("gc-error-reply-loses-live-position", fmt.Sprintf("the source reports %s / %s, the position is labelled %s: next start before gc reads %s; gc request #%d (%s) got an error reply, the run went on and issued [%s]; the next start reads %s",
+					c.cur[:6], c.prev[:6], c.label[:6], first, k-seedLen+1, logF[k].String(), strings.Join(wr, " ; "), got),
+					map[string]interface{}{"op": c.op(), "failed_request": k - seedLen + 1, "request": logF[k].String(), "before": first, "after": got})
+				break
+			}
+		}
+	}
 	s.Distinct(fmt.Sprintf("gf|%v|%d|%d|%v", c.label == c.prev, len(c.dbs), len(lines), c.down))
 }
 
@@ -318,6 +366,14 @@ func vfC17GcFrameGen(r *vfutil.Rand) *vfGFCase {
 	}
 	c.dead = r.Chance(1, 3)
 	c.down = r.Chance(1, 6)
+	if r.Chance(1, 3) { // the position in DB 0: where the placeholder of a start that finds nothing is written
+		for i := range c.dbs {
+			if c.dbs[i] == 0 {
+				c.dbs[i] = 7
+			}
+		}
+		c.dbs[0] = 0
+	}
 	return c
 }
 
